@@ -531,6 +531,8 @@ const std::vector<std::string>& seeds() {
     "{ a " U_IN " X1 | a " U_IN " D1 }", "D { a " U_IN " X1 | a = D2 }", "D { ( a , b ) " U_IN " S1 | a = b }",
     "R { a := D1 | a " U_UNION " D1 }", "R { a := D1 | card ( a ) < 2 | a " U_UNION " X1 }", "R { ( a , b ) := ( D1 , D1 ) | ( a " U_UNION " b , b ) }",
     "I { a | a :" U_IN " X1 }", "I { ( a , b ) | a :" U_IN " X1 ; b := a }", "I { a | a :" U_IN " X1 ; a " U_IN " D1 }",
+    // recursion whose step is well-typed for the initial (empty-set) type only: the error arises on the re-check with the deduced type
+    "R { a := " U_EMPTY " | red ( a ) " U_UNION " X1 }", "R { a := " U_EMPTY " | debool ( a ) " U_UNION " X1 }", "R { a := " U_EMPTY " | 1 = 1 | red ( a ) " U_UNION " X1 }", "R { a := " U_EMPTY " | card ( a ) " U_UNION " X1 }",
     // layout
     "X1 \n " U_UNION " X1" };
   return s;
